@@ -100,9 +100,6 @@ pub fn check_query(qc: &QueryCase, si: &SearchInstance, rep: &mut Report) {
             rep.violate(&format!("C01|{}|{orient}|{dirn}|{clause}", alg.family()), format!("route {ri} = {ids:?}: {}", fails.join("; ")), replay);
             all_ok = false;
         }
-        if ids.len() >= 2 {
-            rep.nontrivial(hash_str(&format!("{:?}|{}|{:?}|{reverse}|{:?}", net.edges.len(), alg.family(), od, ids)));
-        }
         rep.max("max_route_edges", ids.len() as u64);
     }
     let specs = tree_specs(alg, od, reverse, net);
@@ -120,13 +117,13 @@ pub fn check_query(qc: &QueryCase, si: &SearchInstance, rep: &mut Report) {
             );
             all_ok = false;
         }
-        if tree.len() >= 5 {
-            rep.nontrivial(hash_str(&format!("t{:?}|{}|{:?}|{trev}|{}", net.edges.len(), alg.family(), od, tree.len())));
-        }
         rep.max("max_tree_entries", tree.len() as u64);
         rep.count("trees_checked", 1);
     }
     rep.count("routes_checked", res.routes.len() as u64);
+    if res.routes.iter().any(|r| r.len() >= 2) || res.trees.iter().any(|t| t.len() >= 5) {
+        rep.nontrivial(hash_str(&format!("{:?}|{}|{:?}|{reverse}|{:?}|{:?}", net.edges.len(), alg.name(), od, res.routes.iter().map(|r| route_ids(r)).collect::<Vec<_>>(), res.trees.iter().map(|t| t.len()).collect::<Vec<_>>())));
+    }
     if all_ok && res.routes.iter().any(|r| r.len() >= 2) {
         rep.sample(|| json!({"algorithm": alg.name(), "orientation": orient, "direction": dirn, "od": format!("{:?}", od), "motifs": net.motifs, "vertices": net.nv(), "edges": net.ne(), "routes": res.routes.iter().map(|r| route_ids(r)).collect::<Vec<_>>(), "tree_sizes": res.trees.iter().map(|t| t.len()).collect::<Vec<_>>()}));
     }
@@ -185,7 +182,7 @@ pub fn run_directed(property: &str, rep: &mut Report, f: impl Fn(&QueryCase, &Se
 }
 
 pub fn run(tier: Tier, seed: u64) -> MonOut {
-    let n = tier.n(1_500, 60_000);
+    let n = tier.n(12_000, 400_000);
     let mut rep = par_cases(seed, n, |_i, rng, rep| case(tier, rng, rep));
     let mut d = Report::new();
     run_directed("C01", &mut d, check_query);
